@@ -68,11 +68,11 @@ class Graph:
         nodes = [None] * NN
         nodes[OBJ] = implementedBy(object)
         if fresh_bases is None:
-            i0 = InterfaceClass('I0', (Interface,), __module__=mod)
+            ix = InterfaceClass('IX', (Interface,), __module__=mod)
+            i0 = InterfaceClass('I0', (ix,), __module__=mod)
             i1 = InterfaceClass('I1', (i0,), __module__=mod)
             i2 = InterfaceClass('I2', (i0,), __module__=mod)
             i3 = InterfaceClass('I3', (i1, i2), __module__=mod)
-            ix = InterfaceClass('IX', (Interface,), __module__=mod)
             i4 = InterfaceClass('I4', (i1, i0), __module__=mod)
             M = type('M', (object,), {})
             K0 = implementer(i1)(type('K0', (object,), {}))
@@ -151,6 +151,14 @@ def check(g, hist):
         if sro[0] != s or set(sro) != r | {'ROOT'} or len(set(sro)) != len(sro):
             raise Violation('history [%s]: %s.__sro__ is %s, reachable over the current __bases__: %s (+ Interface)' % (
                 fmt(hist), NAMES[s], _nm(sro), _nm(sorted(r))), signature='C02:sro-set')
+        if sro[-1] != 'ROOT':
+            raise Violation('history [%s]: %s.__sro__ %s does not end with Interface' % (fmt(hist), NAMES[s], _nm(sro)), signature='C02:sro-root-last')
+        pos = {x: k for k, x in enumerate(sro)}
+        for x in sro[:-1]:
+            for b in g.bases[x]:
+                if pos[b] < pos[x]:
+                    raise Violation('history [%s]: %s.__sro__ %s lists %s before %s, which has it as a base' % (
+                        fmt(hist), NAMES[s], _nm(sro), NAMES[b], NAMES[x]), signature='C02:sro-base-before-spec')
         iro = [g.index(x) for x in S.__iro__]
         if iro != [x for x in sro if x == 'ROOT' or x in IFACES]:
             raise Violation('history [%s]: %s.__iro__ %s is not __sro__ %s restricted to interfaces' % (
@@ -225,7 +233,7 @@ _ENC = ['zope.interface.interface:Specification.changed', 'zope.interface.interf
         'zope.interface.declarations:Implements.changed', 'zope.interface.ro:ro',
         'zope.interface._zope_interface_coptimizations:SpecificationBase']
 
-_B = ('graph of 13 specifications: implementedBy(object) (fixed), interfaces IX, I0, I1(I0), I2(I0), I3(I1,I2), I4(I1,I0) (a base that another base already extends), class declarations of M '
+_B = ('graph of 13 specifications: implementedBy(object) (fixed), interfaces IX, I0(IX), I1(I0), I2(I0), I3(I1,I2), I4(I1,I0) (a base that another base already extends), class declarations of M '
       '(declares nothing), K0 (@implementer(I1)), K1(K0), plain declarations D0=(I2), D1=(I1, D0), providedBy(ob) for ob=K1() with '
       'directlyProvides(ob, I2); ')
 
